@@ -879,6 +879,12 @@ def builtin(I, o, args, kwargs, callnode):
         return to_int(I, args, kwargs)
     if o is bool:
         return VBool(truth(args[0])) if args else VBool(False)
+    if o is bytes:
+        if not args:
+            return VBytes(b'')
+        if len(args) == 2 and is_concrete(args[0]) and is_concrete(args[1]):
+            return VBytes(bytes(concretise(args[0]), concretise(args[1])))
+        raise Unsupported('bytes() of symbolic value')
     if o is abs:
         t = as_int(args[0])
         return VInt(z3.If(t >= 0, t, -t))
@@ -1708,3 +1714,70 @@ def pattern_method(I, pat, name, args, kwargs):
             I.assume(fact(isnone))
         return VOpt(isnone, m)
     raise Unsupported('Pattern.%s' % name)
+
+
+# ---------------------------------------------------------------------------
+# codecs (trusted axioms; conformance-tested in pyvc/conformance.py)
+# ---------------------------------------------------------------------------
+f_decode = z3.Function('bytes_decode', z3.StringSort(), z3.StringSort(), z3.StringSort())
+
+BOMS = {
+    'utf-8': '\xef\xbb\xbf', 'utf-16-le': '\xff\xfe', 'utf-16-be': '\xfe\xff',
+    'utf-32-le': '\xff\xfe\x00\x00', 'utf-32-be': '\x00\x00\xfe\xff',
+}
+# codecs that keep a leading BOM as U+FEFF in the decoded text
+BOM_KEEPING = ('utf-16-le', 'utf-16-be', 'utf-32-le', 'utf-32-be', 'utf-8')
+# codec -> [(bom bytes, codec that decodes the rest)]  (BOM is consumed)
+BOM_STRIPPING = {
+    'utf-8-sig': [(BOMS['utf-8'], 'utf-8')],
+    'utf-16': [(BOMS['utf-16-le'], 'utf-16-le'), (BOMS['utf-16-be'], 'utf-16-be')],
+    'utf-32': [(BOMS['utf-32-le'], 'utf-32-le'), (BOMS['utf-32-be'], 'utf-32-be')],
+}
+
+
+def decode_axioms(I, enc, b):
+    """facts about bytes.decode(enc) for the byte string b (enc a python str)"""
+    e = z3.StringVal(enc)
+    n = z3.Length(b)
+    if enc in BOM_KEEPING:
+        bom = z3.StringVal(BOMS[enc])
+        k = len(BOMS[enc])
+        I.assume(z3.Implies(z3.PrefixOf(bom, b),
+                            f_decode(e, b) == z3.Concat(z3.StringVal('\ufeff'),
+                                                        f_decode(e, z3.SubString(b, k, n - k)))))
+    if enc in BOM_STRIPPING:
+        for bomtxt, rest_enc in BOM_STRIPPING[enc]:
+            bom = z3.StringVal(bomtxt)
+            k = len(bomtxt)
+            cond = z3.PrefixOf(bom, b)
+            if enc == 'utf-16' and rest_enc == 'utf-16-le':
+                pass
+            I.assume(z3.Implies(cond, f_decode(e, b) ==
+                                f_decode(z3.StringVal(rest_enc), z3.SubString(b, k, n - k))))
+        if enc == 'utf-8-sig':
+            I.assume(z3.Implies(z3.Not(z3.PrefixOf(z3.StringVal(BOMS['utf-8']), b)),
+                                f_decode(e, b) == f_decode(z3.StringVal('utf-8'), b)))
+
+
+def decode_model(I, recv, args, kwargs):
+    from .interp import Raised
+    used('bytes.decode (uninterpreted per codec + BOM axioms)')
+    b = recv.t
+    enc = args[0] if args else kwargs.get('encoding', VStr('utf-8'))
+    errors = concretise(args[1]) if len(args) > 1 else 'strict'
+    et = strterm(enc)
+    if errors == 'strict' and I.spec_mode == 0:
+        which = I.path.choose(2, 'decode')
+        if which == 1:
+            raise Raised(VExc(UnicodeDecodeError, []))
+    if is_concrete(enc):
+        decode_axioms(I, concretise(enc), b)
+    else:
+        if I.spec_mode == 0:
+            which = I.path.choose(2, 'codec-known')
+            if which == 1:
+                raise Raised(VExc(LookupError, [VStr('unknown encoding')]))
+    if errors != 'strict':
+        f = z3.Function('bytes_decode_' + errors, z3.StringSort(), z3.StringSort(), z3.StringSort())
+        return VStr(f(et, b))
+    return VStr(f_decode(et, b))
